@@ -152,7 +152,7 @@ pub fn unseal_rejects_tamper(M: usize, F: usize, A: usize) {
     let kind_ok = matches!(r, Err(PE::CryptoError));
     let untouched = tok[..] == beforeb[..T];
     vcheck_all!(
-        (rejected, "[C02] a token with any single flipped bit, changed footer/assertion or another key is rejected"),
+        (rejected, "[C02][C12] a token with any single flipped bit, changed footer/assertion or another key is rejected"),
         (!rejected || kind_ok, "[C12] an authentication failure is reported as CryptoError, whatever the payload bytes"),
         (!rejected || untouched, "[C12] nothing is decrypted before authentication succeeds (payload buffer untouched on failure)"),
     );
